@@ -18,6 +18,7 @@ RULE = ('a case is a registration history of 1-3 calendar configurations (holida
         'weekend in {Sat-Sun, Fri-Sat, Sun, none}, adj f/p/m, 2-year range) on 1-2 registry keys; after each registration the calendar fetched BY KEY is probed on every day of '
         'the inner range (150-day margins) x n (quick: 13 values incl. +-40; thorough: every n in [-40,40]); non-trivial = a configuration with a holiday run crossing a month end '
         'next to a weekend, or a re-registration of a key whose index was already populated; distinct = canonical hash of the history')
+RULE_ALSO = "; added by the coverage audit and round 8: '+0b' / '-0b' / day-then-business-day tenors through Calendar.dt_bump, adjust of lists / tuples / dicts, the very first call on a fresh calendar, closures of 33-55 days, one holiday list edited in place and registered again"
 ASSUMPTIONS = ['dates stay inside the calendar range (150-day margins); leaving it is outside the statement', 'holidays are supplied as midnight datetimes',
                "Calendar.drange is claimed for '1b' only, with t0 <= t1"]
 DAY = datetime.timedelta(1)
